@@ -678,7 +678,9 @@ def run(ck):
                    "tools/srcgen/gen_tls_labels.py + consts_tls.c: label strings, sizes and the cipher table of the models are regenerated from the source",
                    "message ENCODINGS are not specified: hello randoms, extension presence (extended_master_secret, pre_shared_key binders length), ServerKeyExchange params and ticket nonce are parsed from the wire by this script / small Gallina accessors"]
     ck.assumptions += ["both peers are MatrixSSL: the premaster / (EC)DHE secret and PSK are taken as inputs (what the two peers agree on), the certificate signatures themselves are C11's subject",
-                       "DTLS, TLS 1.0, SSLv3, PSK / DHE / static-ECDH key exchanges and 0-RTT data are not exercised (not in the default build's mutually supported modes, or outside sess.h)"]
+                       "DTLS, TLS 1.0, SSLv3, the TLS <= 1.2 PSK / DHE / static-ECDH key exchanges and 0-RTT application data are not exercised (not in the default build's mutually supported modes, or outside sess.h)",
+                       "TLS 1.3 PSK modes exercised: external and resumption PSK, selected / offered-but-declined (server without it, with another one, with a PSK whose length does not fit its suite, rotated ticket keys), with and without HelloRetryRequest, SHA-256 and SHA-384; psk_ke is compiled in but never selected between two MatrixSSL peers (the server always prefers psk_dhe_ke and there is no option) - the spec covers it (ecdhe = 0), there is no live tie",
+                       "note (not a finding): a TLS 1.3 server that receives an EXPIRED ticket aborts with handshake_failure instead of falling back to a full handshake (RFC 8446 4.2.11: SHOULD); 'resumption PSK declined' is therefore exercised through rotated ticket keys"]
     ck.build_repo()
     h = ck.cc("h_tlskeys.c", wraps=WRAPS)
     # run-time capture of the label bytes per derivation site on a few live sessions: the translator's fallback for
